@@ -138,6 +138,15 @@ class Tokens(V):
         return repr(self)
 
 
+def clone_value(v):
+    """values are immutable except aggregates (written in place through places): copy those, share the rest"""
+    if isinstance(v, Agg):
+        return Agg(v.adt, v.variant, [clone_value(x) for x in v.fields], v.ty, v.origin)
+    if isinstance(v, Closure):
+        return Closure(v.path, [clone_value(x) for x in v.captures])
+    return v
+
+
 # ------------------------------------------------------------------------------------------------ types
 BUILTIN_ADTS = {
     'std::option::Option': [('None', []), ('Some', ['0'])],
@@ -217,7 +226,7 @@ class State:
 
     def fork(self):
         s = State()
-        s.heap = copy.deepcopy(self.heap)
+        s.heap = [clone_value(v) for v in self.heap]
         s.frames = []
         for fr in self.frames:
             nf = Frame(fr.body, dict(fr.cells), fr.ret_to)
@@ -228,7 +237,7 @@ class State:
         s.cond = list(self.cond)
         s.cond_map = dict(self.cond_map)
         s.effects = list(self.effects)
-        s.refine = copy.deepcopy(self.refine)
+        s.refine = {k: clone_value(v) for k, v in self.refine.items()}
         s.notes = list(self.notes)
         s.counter = dict(self.counter)
         s.steps = self.steps
@@ -974,7 +983,7 @@ class FDI:
         for r in self.effects:
             if r.search(name):
                 st.effects.append((name, [self.describe(st, a) for a in args], {'line': t['line'], 'fn': fr.body.path, 'x': [self.xof(st, a) for a in args],
-                                                                                'n': len(st.effects) + 1}))
+                                                                                'n': len(st.effects) + 1, 'ci': len(st.cond)}))
                 is_effect = True
                 break
         # models
@@ -988,6 +997,11 @@ class FDI:
                 return self.ret(st, fr, t, out)
         # fn pointer / closure values called through Fn traits are handled by models; crate-local: inline
         if c['k'] == 'def' and name in self.f.bodies and len(st.frames) <= self.inline_depth and not any(r.search(name) for r in self.no_inline):
+            cb = self.f.bodies[name]
+            if cb.kind == 'Closure' and len(args) == 2 and isinstance(args[1], Agg) and args[1].adt == 'tuple' and cb.arg_count != 2:
+                args = [args[0]] + list(args[1].fields)      # "rust-call" ABI: the argument tuple is spread
+            elif cb.kind == 'Closure' and len(args) == 2 and isinstance(args[1], Agg) and args[1].adt == 'tuple' and len(args[1].fields) == 1:
+                args = [args[0], args[1].fields[0]]
             self.push_frame(st, name, args, (t['dest'], t['target']))
             return False
         if c['k'] == 'ptr':
@@ -1117,8 +1131,8 @@ def m_clone(I, st, fr, t, args, name):
     a = args[0]
     if isinstance(a, Ref):
         v = I.read_cell_path(st, a.cell, a.proj)
-        return copy.deepcopy(I.deep_copyable(st, v)) if hasattr(I, 'deep_copyable') else copy.deepcopy(v)
-    return copy.deepcopy(a)
+        return clone_value(v)
+    return clone_value(a)
 
 
 def _opt_variant(I, st, v):
